@@ -72,6 +72,7 @@ def well_formed(tag, s):
 class Phrases(Sub):
     name = "phrases_exhaustive"
     kind = "enum"
+    case_timeout = 900.0
     backends = ("py",)
     n = {"quick": 0, "thorough": 0}
     shards = {"quick": 9, "thorough": 27}
@@ -281,6 +282,7 @@ TOKENS = ["MMMM", "MMM", "Mo", "Do", "DDDo", "dddd", "ddd", "dd", "do", "e", "eo
 class LocaleTokens(Sub):
     name = "locale_tokens"
     kind = "enum"
+    case_timeout = 900.0
     backends = ("py",)
     n = {"quick": 0, "thorough": 0}
     shards = {"quick": 3, "thorough": 9}
@@ -376,6 +378,7 @@ BIG_COUNTS = [1001, 1011, 10000, 100000, 500000, 999999, 10**6, 10**6 + 1, 12345
 class LargeCounts(Sub):
     name = "large_counts"
     kind = "enum"
+    case_timeout = 900.0
     backends = ("py",)
     n = {"quick": 0, "thorough": 0}
     shards = {"quick": 3, "thorough": 9}
